@@ -13,6 +13,7 @@ import (
 	"fmt"
 	"os"
 	"path/filepath"
+	"runtime/pprof"
 	"sort"
 	"strconv"
 	"strings"
@@ -136,7 +137,15 @@ func cmdRun(args []string) int {
 	solver := fs.String("solver", "z3", "z3|z3-new|cvc5")
 	float := fs.String("float", "fp", "fp|real")
 	maxPaths := fs.Int("maxpaths", 200000, "path budget")
+	prof := fs.String("cpuprofile", "", "write cpu profile")
+	kconc := fs.Int("k", 64, "concretize bound")
+	maxDec := fs.Int("maxdec", 600, "max decisions")
 	fs.Parse(args)
+	if *prof != "" {
+		f, _ := os.Create(*prof)
+		pprof.StartCPUProfile(f)
+		defer pprof.StopCPUProfile()
+	}
 	overlay, _, err := loadOverlay(*repo, *hdir)
 	if err != nil {
 		fmt.Fprintln(os.Stderr, err)
@@ -149,7 +158,7 @@ func cmdRun(args []string) int {
 	}
 	fmt.Printf("loaded %d packages in %v, ssa %v\n", prog.NPkgs, prog.LoadDur, prog.SSADur)
 	known := loadKnown("/verif/known_findings.json")
-	cfg := symgo.HarnessConfig{MaxDecisions: 600, MaxSteps: 20_000_000, MaxPaths: *maxPaths, ConcretizeK: 64, SolverMs: 60000,
+	cfg := symgo.HarnessConfig{MaxDecisions: *maxDec, MaxSteps: 20_000_000, MaxPaths: *maxPaths, ConcretizeK: *kconc, SolverMs: 60000,
 		Workers: *workers, SampleEvery: 1, FloatMode: *float, Known: known, Tier: *tier}
 	rep, err := prog.RunHarness(*name, cfg, solverKind(*solver), *verbose)
 	if err != nil {
@@ -157,7 +166,7 @@ func cmdRun(args []string) int {
 		return 3
 	}
 	fmt.Printf("paths=%d ends=%v obligations=%d discharged=%d queries=%d solver=%v wall=%v steps=%d\n", rep.Paths, rep.Ends, rep.Obligations, rep.Discharged, rep.SolverQueries, rep.SolverTime, rep.Wall, rep.Steps)
-	fmt.Printf("reached=%v\nasserts=%v\n", rep.Reached, rep.AssertsByID)
+	fmt.Printf("reached=%v\nasserts=%v\nmodeltime=%v\n", rep.Reached, rep.AssertsByID, rep.ModelTime)
 	for _, v := range rep.Violations {
 		fmt.Printf("VIOLATION %s %s\n  model=%v\n  obs=%v\n  trace=%v\n", v.AssertID, v.Msg, v.Model, v.Observed, v.Trace)
 	}
